@@ -1,8 +1,12 @@
 HOOK_COMMITS = ["62c23309"]
-FIX_COMMITS = ["f30b07ca", "4730a169", "b021ba71", "6b5e0bb5", "facba332", "c36040ff"]
+FIX_COMMITS = ["f30b07ca", "4730a169", "b021ba71", "6b5e0bb5", "facba332", "c36040ff", "66db44d1"]
 PENDING = "check not built yet (construction in progress, see DESIGN.md section 7); no claim is made"
 NOT_APPLICABLE = {("C%02d" % i): PENDING for i in range(1, 21)}
 CHECKS = {
+ "C13": dict(
+  technique="model-based runtime monitoring under ASan+UBSan: executable reference model of registry + settings store, every accessor called through the C++ method, the C function and the Fortran glue on the same object and compared in place",
+  level="bounded-exhaustive registry sequences (8-letter alphabet, length <=3 quick / <=4 thorough: create via each binding, destroy first/last live, double destroy, never-issued/negative ids, look-up of every id) plus seeded random histories (25-70 calls, <=4 live instances) over all setters (valid/NULL/empty/long/odd values), current-number changes, loads, 5 run inputs defining 6 selected-output numbers (incl. a heading-only table), a failing run, accumulate/clear/run-accumulated, AddError/AddWarning, invalid-id bursts with digest-unchanged checks, and three-binding probes of 34 plain + 8 indexed accessors and of table cells (in and out of range, Value/Value2/ValueF)",
+  note="the Fortran 90 module source is not compiled (no Fortran compiler in the image), only its C glue; header is silent on the invalid-id result of four *StringLineCount functions (0 or IPQ_BADINSTANCE admitted); 1 defect repaired by a fix: commit"),
  "C10": dict(
   technique="differential runtime monitoring: DUMP->read->DUMP fixed point, follow-up calculations on original vs text-restored vs storage-bin copy vs serializer copy vs SOLUTION_MODIFY-restored instances (1 case in 6 under ASan+UBSan)",
   level="seeded rich states (all entity kinds incl. every surface electrostatic model, gas fixed P/V, solid solutions, kinetics, mix/reaction/temperature/pressure, optional isotopes/pressure, optionally already reacted) and generated multi-simulation chains; follow-ups RUN_CELLS over all cells and a reaction step, 60+ result columns compared at 1e-7 (measured noise floors for a few columns)",
